@@ -110,7 +110,8 @@ def _inv_case(rng):
     if scalar:
         ts = ts[:1] if ts else [Fraction(rng.randint(-3, 3))]
     return {"kind": "inv", "style": style, "x": [enc(v) for v in x], "y": [enc(v) for v in y],
-            "t": [enc(v) for v in ts], "scalar": scalar}
+            "t": [enc(v) for v in ts], "scalar": scalar,
+            "tform": rng.choice(["pyfloat", "np64", "0d", "0d"]) if scalar else rng.choice(["array", "array", "list", "tuple"])}
 
 
 def _tam_case(rng, k):
@@ -172,7 +173,8 @@ def _tam_case(rng, k):
     cls = "group" if (ep == 0 and en == 0 and rng.random() < 0.45) else "scores"   # GroupScores has no easy samples
     return {"kind": "tam", "style": style, "pos": [enc(v) for v in pos], "neg": [enc(v) for v in neg], "ep": ep, "en": en,
             "sc": sc, "ec": ec, "metric": metric, "points": points, "t": [enc(v) for v in ts], "scalar": scalar,
-            "cls": cls, "gseed": rng.randint(0, 10**6)}
+            "cls": cls, "gseed": rng.randint(0, 10**6),
+            "tform": rng.choice(["pyfloat", "np64", "0d", "0d"]) if scalar else rng.choice(["array", "array", "list", "tuple"])}
 
 
 def gen_cases(rng, tier):
@@ -192,6 +194,19 @@ def gen_cases(rng, tier):
         {"kind": "inv", "style": "table", "x": ["0/1", "1/1"], "y": ["0/1", "1/1"], "t": [], "scalar": False},
     ]
     cases = list(fixed)
+    # long curves (more samples than any internal block size is likely to be): strictly increasing, one solution per
+    # target, targets in the segments around multiples of 4096 / 1024 / 1000 and in random segments
+    for _ in range({"quick": 2, "thorough": 6, "search": 3}[tier]):
+        n = rng.choice([4100, 8200, 9000, 5000])
+        y, v = [], Fraction(rng.randint(-4, 4))
+        for _i in range(n):
+            y.append(v)
+            v += rng.choice([1, 2, Fraction(1, 2), 4])
+        x = [Fraction(i) for i in range(n)]
+        segs = [j for j in (1023, 1024, 999, 1000, 4095, 4096, 8191, 8192, n - 2, 0) if j < n - 1] + [rng.randrange(n - 1) for _ in range(4)]
+        ts = [(y[j] + y[j + 1]) / 2 for j in segs]
+        cases.append({"kind": "inv", "style": "long", "x": [enc(a) for a in x], "y": [enc(a) for a in y],
+                      "t": [enc(a) for a in ts], "scalar": False, "tform": "array"})
     cases += [_inv_case(rng) for _ in range(n_inv)]
     cases += [_tam_case(rng, k) for k in range(n_tam)]
     return cases
@@ -215,7 +230,12 @@ def run_impl(case):
     from score_analysis import Scores, utils
 
     tv = [fl(t) for t in case["t"]]
-    target = np.float64(tv[0]) if case["scalar"] else np.array(tv, dtype=float)
+    # the argument form of the target: Python float / NumPy scalar / 0-d array are scalars, list / tuple / ndarray are arrays
+    tform = case.get("tform", "np64" if case["scalar"] else "array")
+    if case["scalar"]:
+        target = {"pyfloat": float(tv[0]), "np64": np.float64(tv[0]), "0d": np.array(tv[0], dtype=float)}[tform]
+    else:
+        target = {"array": np.array(tv, dtype=float), "list": list(tv), "tuple": tuple(tv)}[tform]
     if case["kind"] == "inv":
         x = np.array([fl(v) for v in case["x"]], dtype=float)
         y = np.array([fl(v) for v in case["y"]], dtype=float)
@@ -265,7 +285,9 @@ def run_impl(case):
     # the same metric at a tiny magnitude (values and target scaled by 2^-550: exact, and the solutions are unchanged)
     tiny = 2.0 ** -550
     try:
-        by_tiny = s.threshold_at_metric(target * tiny, lambda sample, points: getattr(Scores, case["metric"])(sample, points) * tiny, pts_arg)
+        t_tiny = (np.asarray(target, dtype=float) * tiny if not case["scalar"] else
+                  {"pyfloat": float, "np64": np.float64, "0d": (lambda v: np.array(v, dtype=float))}[tform](tv[0] * tiny))
+        by_tiny = s.threshold_at_metric(t_tiny, lambda sample, points: getattr(Scores, case["metric"])(sample, points) * tiny, pts_arg)
         out["by_tiny"] = _canon(by_tiny, case["scalar"])
     except ValueError:
         out["tiny_raised"] = "ValueError"
@@ -444,8 +466,9 @@ def oracle(case, res):
         fails.append(("C17/tam/scale", f"metric and target both scaled by 2^-550 (exact): result {r['by_tiny']['sols']} differs from "
                       f"the unscaled {r['by_callable']['sols']}"))
     if r["by_name"] != r["direct"]:
-        fails.append(("C17/tam/inversion", f"result {r['by_name']['sols']} differs from invert_pl_function applied to the metric at the "
-                      f"chosen points {r['direct']['sols']}"))
+        fails.append(("C17/tam/inversion", f"result {r['by_name']['sols']} ({'bare array' if r['by_name'].get('bare') else 'list of arrays'}) "
+                      f"differs from invert_pl_function applied to the metric at the chosen points {r['direct']['sols']} "
+                      f"({'bare array' if r['direct'].get('bare') else 'list of arrays'}); target passed as {case.get('tform')}"))
     if _wf_curve(pts, yv) and pts:
         fails += _check_inversion(pts, yv, ts, case["scalar"], r["by_name"], "C17/tam")
     return fails
@@ -496,6 +519,8 @@ def coq_term(case, res):
     r = res["ok"]
     ts = [F(t) for t in case["t"]]
     if case["kind"] == "inv":
+        if len(case["x"]) > 2000:
+            return None   # long curves: checked by the oracle (the exact scan), not sent through vm_compute
         x = [F(v) for v in case["x"]]
         y = [F(v) for v in case["y"]]
         if r.get("bare") is None and not r.get("raised"):
